@@ -61,6 +61,26 @@ func (fe *FnEnc) findLoops() {
 		l.ord = i + 1
 		if fe.contract != nil {
 			l.spec = fe.contract.Loops[l.ord]
+			// `maintains` clauses are invariants of every loop
+			var extra []Clause
+			for _, cl := range fe.contract.Ensures {
+				if cl.Maintained {
+					c2 := cl
+					if c2.Props == nil {
+						c2.Props = fe.contract.Props
+					}
+					extra = append(extra, c2)
+				}
+			}
+			if len(extra) > 0 {
+				sp := &LoopSpec{}
+				if l.spec != nil {
+					sp.Invs = append(sp.Invs, l.spec.Invs...)
+					sp.Decr = l.spec.Decr
+				}
+				sp.Invs = append(sp.Invs, extra...)
+				l.spec = sp
+			}
 		}
 	}
 }
@@ -378,6 +398,7 @@ func (fe *FnEnc) initEntry(st *State) {
 		isRecv := i == 0 && fn.Signature.Recv() != nil
 		if isRecv {
 			bind(recvName, rv)
+			bind("recv", rv)
 			if _, ok := p.Type().Underlying().(*types.Pointer); ok && (fe.contract == nil || !fe.contract.NilRecvOK) {
 				fe.emit("(assert (not (= " + t.S + " 0)))")
 			}
@@ -405,6 +426,9 @@ func (fe *FnEnc) initEntry(st *State) {
 		env.pre = true
 		for i := range fe.contract.Requires {
 			cl := &fe.contract.Requires[i]
+			if cl.Invariant {
+				fe.assumed["object invariant assumed on entry of "+fe.key+": "+cl.Label] = true
+			}
 			fe.assumeClause(st, "pre."+cl.Label, cl.E, env)
 		}
 		o := fe.addObl(st, "cover", "pre", []string{"C15"}, tFalse, fn.Pos())
@@ -716,7 +740,13 @@ func (fe *FnEnc) execInstr(st *State, ins ssa.Instruction) {
 	case *ssa.RunDefers:
 		fe.runDefers(st, x)
 	case *ssa.Go:
-		// arguments are evaluated, the spawned call is not part of this call's sequential behaviour
+		// arguments are evaluated, the spawned call is not part of this call's sequential behaviour;
+		// the preconditions of a spawned function under contract are checked where it is spawned
+		if callee := x.Call.StaticCallee(); callee != nil {
+			if fc := fe.c.contractFor(callee); fc != nil && !fe.dry {
+				fe.goPreconditions(st, x, fc, callee)
+			}
+		}
 		fe.assumed["go statement: spawned goroutine not modelled ("+x.Call.Value.Name()+")"] = true
 	case *ssa.Select:
 		var tup []RV
